@@ -39,6 +39,27 @@ fn main() {
     }
     match args[1].as_str() {
         "reduce" => std::process::exit(reduce::main(&args[2..])),
+        "hover-all" => {
+            // developer aid: hover at every token start of a file
+            let src = std::fs::read_to_string(&args[2]).unwrap_or_default();
+            let path = std::path::Path::new(&args[2]);
+            let mut line = 0u32;
+            let mut col = 0u32;
+            for t in lexer::lex(&src) {
+                if !t.kind.is_trivia() {
+                    let h = compiler::query::hover_type(path, &src, line, col);
+                    println!("{}:{} `{}` => {:?}", line, col, t.text.replace('\n', " "), h);
+                }
+                for ch in t.text.chars() {
+                    if ch == '\n' {
+                        line += 1;
+                        col = 0;
+                    } else {
+                        col += 1;
+                    }
+                }
+            }
+        }
         "debug-gen" => std::process::exit(dbg::main(&args[2..])),
         "goldens" => std::process::exit(goldens::main()),
         "observe" => {
